@@ -477,7 +477,14 @@ class World:
                 return ("dir", sorted(self.sysblock))
             rest = path[len("/sys/block/"):]
             if rest in self.sysblock:
-                return ("dir", ["stat"])
+                return ("dir", ["queue", "stat"])
+            # block/blk-sysfs.c: the drive's own sector size (4K-native for every other disk);
+            # /proc/diskstats counts 512-byte units whatever these say
+            q = ("hw_sector_size", "logical_block_size", "physical_block_size", "minimum_io_size")
+            if rest.endswith("/queue") and rest[:-6] in self.sysblock:
+                return ("dir", list(q))
+            if rest.rsplit("/", 1)[-1] in q and rest.rsplit("/", 2)[0] in self.sysblock and rest.split("/")[-2] == "queue":
+                return ("file", b"4096\n" if sum(rest.split("/")[0].encode()) % 2 else b"512\n")
             if rest.endswith("/stat") and rest[:-5] in self.sysblock:
                 # block/genhd.c part_stat_show(): 11 (4.18: 15, 5.5: 17) counters; values nobody
                 # lists in /proc/diskstats, so that a report built from here is recognisable
